@@ -1,6 +1,7 @@
 import RsslVerif.Gen.MslGenTables
 import RsslVerif.Model.GenHlsl
 import RsslVerif.Model.MslAst
+import RsslVerif.Model.MslDupIr
 /-!
 # `Model.GenMsl` — model of the expression / statement / function half of `msl/src/generator.rs` (scalar subset)
 
@@ -11,7 +12,8 @@ import RsslVerif.Model.MslAst
 `generate_function_out_trampoline_body`, `genFuncs` ↔ `generate_function_and_trampoline`.
 Every Rust panic on these paths is an explicit `Except.error (.panic …)`, every `return Err(GenerateError::e)` an
 `Except.error (.diag e)` (since fix batch 2: `IntLiteralOutOfRange` 6017bad, `UnsupportedDouble` 9824ce3 — no modelled constant
-is a double —, `ComplexTypeBind` 922a181 in `generate_for_init`).  What the exporter reads from its context
+is a double —, `ComplexTypeBind` 922a181 in `generate_for_init`; fix batch 3: `ComplexRemainderAssignment` 92d66eb + 35faaaa for a
+floating-point `%=` whose target is not a plain place or whose right operand may write).  What the exporter reads from its context
 (names, types, `function_required_globals`, `called_functions`) is the parameter `Ctx`.
 -/
 namespace RsslVerif.Model.GenMsl
@@ -106,6 +108,29 @@ def scalarIn (scalars : List String) (t : Ty) : Bool :=
   | some k => scalars.contains k
   | none => false
 
+/-- `is_plain_place` on the scalar subset (fix 92d66eb), through the re-extracted table: locals, parameters and globals are
+plain places; the other constructors of the subset (operators, `?:`, sequences, casts, calls, literals) have no arm -/
+def plainPlace (e : Ir.Expr) : Bool := MslDup.plainPlaceD (MslDup.toD e)
+
+/-- `is_free_of_writes` on the scalar subset (fix 35faaaa), through the re-extracted table: no call, assignment, increment
+or sequence anywhere in the operand -/
+def freeOfWrites (e : Ir.Expr) : Bool := MslDup.freeOfWritesD (MslDup.toD e)
+
+/-- `!is_plain_place(&exprs[0]) || !is_free_of_writes(&exprs[1])` does not refuse (`exprs[1]` on one operand: index out of
+bounds; the type checker builds the operator with two) -/
+def remOperandsOK : Ir.Exprs → Except GenErr Bool
+  | .nil => .error (.panic "generate_intrinsic_op: index out of bounds")
+  | .cons a .nil => if plainPlace a then .error (.panic "generate_intrinsic_op: index out of bounds") else .ok false
+  | .cons a (.cons b _) => .ok (plainPlace a && freeOfWrites b)
+
+/-- `exprs[0].get_type(context.module).unwrap()` -/
+def exprTyHead (cx : Ctx) : Ir.Exprs → Except GenErr Ty
+  | .nil => .error (.panic "generate_intrinsic_op: index out of bounds")
+  | .cons a _ =>
+    match exprTy cx a with
+    | none => .error (.panic "generate_intrinsic_op: called `Result::unwrap()` on an `Err` value")
+    | some t => .ok t
+
 /-- `metal_lib_identifier(name)` printed as a scoped identifier -/
 def metalLib (name : String) : String := metalLibPrefix ++ "::" ++ name
 
@@ -182,6 +207,44 @@ def genExpr (cx : Ctx) : Ir.Expr → Except GenErr HlslAst.Expr
             | .error e => .error e
             | .ok as => .ok (.call (metalLib name) as)
           else genBinary cx b args
+    | .floatAssign scalars err outer inner b =>
+      -- fixes 92d66eb + 35faaaa: on a floating-point first operand `a op= y` is generated as
+      -- `IntrinsicOp(outer, [a, IntrinsicOp(inner, exprs)])` (`a = a % y`, whose `%` becomes `metal::fmod`), provided `a` is a plain
+      -- place and `y` is free of writes; otherwise `Err(err)`
+      match exprTyHead cx args with
+      | .error e => .error e
+      | .ok t =>
+        if scalarIn scalars t then
+          match remOperandsOK args with
+          | .error e => .error e
+          | .ok false => .error (.diag err)
+          | .ok true =>
+            match mslOpForm outer with
+            | .binary bo =>
+              match genHead cx args with
+              | .error e => .error e
+              | .ok a' =>
+                match mslOpForm inner with
+                | .floatCall name sc bi =>
+                  if scalarIn sc t then
+                    match genArgs cx args with
+                    | .error e => .error e
+                    | .ok as => .ok (.bin bo a' (.call (metalLib name) as))
+                  else
+                    match genBinary cx bi args with
+                    | .error e => .error e
+                    | .ok v => .ok (.bin bo a' v)
+                | .binary bi =>
+                  match genBinary cx bi args with
+                  | .error e => .error e
+                  | .ok v => .ok (.bin bo a' v)
+                | _ => .error (.unsupported "float assign: form of the inner operator")
+            | _ => .error (.unsupported "float assign: form of the outer operator")
+        else genBinary cx b args
+/-- `generate_expression(&exprs[0], …)` -/
+def genHead (cx : Ctx) : Ir.Exprs → Except GenErr HlslAst.Expr
+  | .nil => .error (.panic "generate_intrinsic_op: index out of bounds")
+  | .cons a _ => genExpr cx a
 /-- `Form::Binary(op)` -/
 def genBinary (cx : Ctx) (b : BinOp) : Ir.Exprs → Except GenErr HlslAst.Expr
   | .cons x (.cons y .nil) =>
